@@ -1219,7 +1219,9 @@ def bounded(seq, bounds, index=None, clip=True, nearest=True):
     # find indicies of the elements that are out of bounds
     at = where(sum([(lo <= seq)&(seq <= hi) for (lo,hi) in bounds.T], axis=0).astype(bool) == False)[-1]
     # find the intersection of out-of-bound and selected indicies
-    at = at if index is None else intersect1d(at, index)
+    if index is not None: # (an index may be negative; ignore any out-of-range)
+        n = len(seq); index = [i % n for i in index if -n <= i < n]
+        at = intersect1d(at, index)
     if not len(at): return seq
     if clip:
         if nearest: # clip at closest bounds
